@@ -103,7 +103,7 @@ print(json.dumps(res))
 
 
 def run(ctx, build):
-    for rnd in range(30 if ctx.thorough else 1):
+    for rnd in range(80 if ctx.thorough else 1):
         ctx.extra['rounds'] = rnd + 1
         if one_round(ctx, build, rnd) is False or ctx.violations:
             return
